@@ -31,7 +31,7 @@ META = {
 
 MODEL_SRC = '''
 from dataclasses import dataclass
-from typing import Iterable, TypeVar, Generic, Any, Protocol
+from typing import Iterable, TypeVar, Generic, Any, Protocol, Self
 import ast as _ast
 from func_adl import register_func_adl_os_collection, func_adl_callback
 from func_adl.type_based_replacement import ObjectStreamInternalMethods
@@ -53,6 +53,7 @@ class RegColl(ObjectStreamInternalMethods[T]):
 class Box(Generic[T]):
     def get(self) -> T: ...
     def n(self) -> int: ...
+    def same_box(self) -> Self: ...
 class Pair(Generic[K, V]):
     def key(self) -> K: ...
     def val(self) -> V: ...
@@ -101,6 +102,9 @@ class Base:
     def base_pt(self) -> float: ...
     def base_n(self) -> int: ...
     def noann(self): ...
+    # the object's own type, whatever subclass it is (typing.Self)
+    def me(self) -> Self: ...
+    def peers(self) -> Iterable[Self]: ...
 class Trk(Base):
     def pt(self) -> float: ...
     def charge(self) -> int: ...
@@ -296,7 +300,19 @@ def elem_of(t):
     return None
 
 
-def method_ret(t, name):
+def _self_is(ann, recv):
+    """typing.Self in a method's annotation is the type of the object the method is called on"""
+    if ann is typing.Self:
+        return recv
+    args = typing.get_args(ann)
+    if args and any(a is typing.Self for a in args):
+        origin = typing.get_origin(ann)
+        new = tuple(recv if a is typing.Self else a for a in args)
+        return typing.Iterable[new[0]] if origin is collections.abc.Iterable else origin[new]
+    return ann
+
+
+def method_ret(t, name, recv=None):
     """declared return type of method ``name`` on type t with type variables substituted, or KeyError"""
     origin = typing.get_origin(t) or t
     if isinstance(origin, type) and name in origin.__dict__:
@@ -305,12 +321,12 @@ def method_ret(t, name):
             return Any
         ann = typing.get_type_hints(f, globalns=NS)["return"]  # resolves quoted / nested forward references
         params = _params(origin)
-        return _subst(ann, dict(zip(params, typing.get_args(t))))
+        return _self_is(_subst(ann, dict(zip(params, typing.get_args(t)))), recv if recv is not None else t)
     for b in bases_of(t):
         if b is object or typing.get_origin(b) is typing.Generic:
             continue
         try:
-            return method_ret(b, name)
+            return method_ret(b, name, recv if recv is not None else t)
         except KeyError:
             continue
     raise KeyError(name)
